@@ -110,6 +110,17 @@ CHECKS = {
         note="bounds as printed in evidence; inserted values are fresh or re-attached nodes; optimizer rules/simplify only applied "
              "to trees whose SQL re-parses to the same structure; states after an operation raised are not judged. " + TRUST,
         design="2/C08"),
+    "C20": dict(
+        category="exploration", engine="E1",
+        technique="exhaustive enumeration of (source, target) pairs within 2 edits at every position + all pool pairs x matchings x thresholds; exact node-accounting oracle",
+        text="For every core-grammar query and 14 deliberately repetitive trees: the tree vs its copy, vs itself, vs every tree reachable "
+             "by one edit (rename, literal, alias, join side, operand swap, wrap, unwrap, delete/insert/move of list items) at every "
+             "position in both directions, vs every 2-edit target for the repetitive trees, and all ordered pairs of a 44-tree pool, "
+             "under default / extreme thresholds and no / root / truthful leaf / crossed matchings, with delta_only False and True: every "
+             "non-identifier node is accounted for exactly once, pairs have the same class, delta_only is the full script minus Keep, "
+             "the delta is empty exactly for equal trees, inputs keep their fingerprint and carry no stale hash.",
+        note="for deliberately wrong (crossed) matchings only the accounting is judged. " + TRUST,
+        design="2/C20"),
 }
 
 NOT_YET = "check not built yet in this session (design in DESIGN.md section 2); will be claimed once its check exists"
